@@ -142,9 +142,12 @@ def r3_rc_types(ctx):
         out.append(holds("C11.R3", "rc-types", "", "reference-counted types in the crate: %s; OwnedFd has no interior pointer, so no cycle can keep a descriptor alive" % sorted(kinds)))
     # the walk's Rc is unwrapped (unique ownership asserted) before a Handle is made
     b = F.body("<resolvers::PartialLookup<handle::Handle> as std::convert::From<resolvers::PartialLookup<std::rc::Rc<rustix::fd::OwnedFd>>>>::from")
-    tu = [t for t in b.calls() if (t.callee or "").endswith("::try_unwrap") and "Rc::" in t.callee]
-    (out.append(holds("C11.R3", "rc-unwrap", b.where(), "Rc::try_unwrap before the descriptor becomes a Handle")) if len(tu) == 1 else
-     out.append(violated("C11.R3", "rc-unwrap", b.where(), "expected one Rc::try_unwrap in the PartialLookup conversion")))
+    tu = [t for cb in [b] + F.closures_of(b.path) for t in cb.calls() if (t.callee or "").endswith("::try_unwrap") and "Rc::" in t.callee]
+    # no other way out of the Rc in the conversion (cloning the inner descriptor would leave the walk's copy open)
+    other = [t for cb in [b] + F.closures_of(b.path) for t in cb.calls()
+             if re.search(r"try_clone|Rc::<[^>]*>::(into_raw|as_ptr|into_inner|unwrap_or_clone)|::try_clone_to_owned", t.callee or "")]
+    (out.append(holds("C11.R3", "rc-unwrap", b.where(), "Rc::try_unwrap before the descriptor becomes a Handle")) if len(tu) >= 1 and not other else
+     out.append(violated("C11.R3", "rc-unwrap", b.where(), "the PartialLookup conversion must take the descriptor out of the Rc with Rc::try_unwrap (found %d try_unwrap, other exits %s)" % (len(tu), [t.callee for t in other]))))
     return out
 
 
